@@ -69,7 +69,7 @@ pub fn alternating_ops(lens: &[usize], kinds: &[u8], lead_eq: bool) -> Vec<DiffO
     ops
 }
 
-fn emit_group(ops: &[DiffOp], n: usize, out: &mut Out) {
+pub fn emit_group(ops: &[DiffOp], n: usize, out: &mut Out) {
     let case = out.next_case();
     let ops_v = ops.to_vec();
     let g = rec::guarded(|| group_diff_ops(ops_v, n));
